@@ -85,6 +85,15 @@ def base_frames(ctx, b, d, rnd, prop):
             cid = len(cases) + 1
             cases.append({"id": cid, "input": inp, "opts": dict(o, size=inp["len"]) if actual else o, "calls": calls, "kind": kind,
                           "save": os.path.join(d, "base-%d.lz4" % cid)})
+    # frames without any content (header, end mark, trailer): nothing goes through the content hash, and every byte of the
+    # trailer still has to be there (Close alone; Write of nothing then Close)
+    for ccs, bcs, size0, calls in ((True, False, False, [{"op": "close"}]),
+                                   (True, True, True, [{"op": "write", "n": 0}, {"op": "close"}]),
+                                   (False, False, False, [{"op": "flush"}, {"op": "close"}])):
+        o = {"code": 4, "bcs": bcs, "ccs": ccs, "level": 0, "conc": 1, "legacy": False, "handler": False}
+        inp = fl.input_for(rnd, 0, "text")
+        cid = len(cases) + 1
+        cases.append({"id": cid, "input": inp, "opts": o, "calls": calls, "kind": "empty", "save": os.path.join(d, "base-%d.lz4" % cid)})
     recs, faults = fl.shard_run(b, "frame-write", cases, d, "base")
     if faults:
         raise vlib.MachineryFault("frame-write failed: %s" % faults[0]["stderr"][-800:])
